@@ -13,6 +13,7 @@ package lexer
 // position of the current token in it, pointers the stack of saved positions.
 //@ pred tinv(tl *TLexer) bool := tl != nil && tl.writep == len(tl.stack) && -1 <= tl.readp && tl.readp <= tl.writep - 1
 //@     && (forall j :: 0 <= j && j < len(tl.pointers) ==> -1 <= tl.pointers[j] && tl.pointers[j] <= tl.writep - 1)
+//@     && (tl.lexer.eof ==> tl.writep >= 1)
 //@ pred cacheKept(tl *TLexer) bool := forall i :: 0 <= i && i < old(tl.writep) ==> tl.stack[i] == old(tl.stack[i])
 //@ pred pointersKept(tl *TLexer) bool := len(tl.pointers) == old(len(tl.pointers)) && (forall j :: 0 <= j && j < len(tl.pointers) ==> tl.pointers[j] == old(tl.pointers[j]))
 //
@@ -23,7 +24,7 @@ package lexer
 //@   ensures[cached] old(tl.readp) < old(tl.writep) - 1 ==> result && tl.readp == old(tl.readp) + 1 && tl.writep == old(tl.writep) && eqv(tl.lexer, old(tl.lexer))
 //@   ensures[fetch]  old(tl.readp) == old(tl.writep) - 1 && result ==> tl.readp == old(tl.readp) + 1 && tl.writep == old(tl.writep) + 1
 //@       && tl.stack[tl.readp].token == tl.lexer.Token && tl.stack[tl.readp].err == tl.lexer.Err && tl.stack[tl.readp].from == tl.lexer.from && tl.stack[tl.readp].to == tl.lexer.to
-//@   ensures[stay]   !result ==> tl.readp == old(tl.readp) && tl.writep == old(tl.writep)
+//@   ensures[stay]   !result ==> tl.readp == old(tl.readp) && tl.writep == old(tl.writep) && tl.readp >= 0
 //
 //@ func (*TLexer).Token [C13,C06] pure
 //@   requires tinv(tl) && tl.readp >= 0
@@ -61,10 +62,20 @@ package lexer
 //@ func NewTLexer [C13]
 //@   ensures result.readp == -1 && result.writep == 0 && len(result.stack) == 0 && len(result.pointers) == 0
 //
+// TLexer implements the abstract transactional lexer the combinators are verified against
+// (combinator/zz_contracts_verif.go): each concrete method contract implies the interface's.
+//@ refine combinator.RollbackLexer by tl *TLexer [C13,C06]
+//@   coupling tinv(tl)
+//@   model pos := tl.readp
+//@   model cached := tl.writep
+//@   model depth := len(tl.pointers)
+//@   model saved(i int) := tl.pointers[i]
+//
 // ---- Lexer -------------------------------------------------------------------------------------
 //@ func (*Lexer).Next [C14,C06] trusted
 //@   requires l != nil
 //@   modifies *l
+//@   ensures[false_means_done] !result ==> old(l.eof) && l.eof
 //
 //@ canary func (*TLexer).From
 //@   ensures false
